@@ -62,3 +62,64 @@ Fixpoint model_trace (strict : bool) (t : table) (steps : list dstep) : list (re
       end
   end.
 Definition expected_dml (c : dcase) := (did c, first_bad (dstrict c) (dinit c) (dsteps c) 1, model_trace (dstrict c) (dinit c) (dsteps c)).
+
+(* ---- multi-table DELETE / UPDATE over two joined tables ------------------------------------------- *)
+Inductive mstmt :=
+| MDelete (tp tc : bool) (on wh : option expr)
+| MUpdate (sets : list (nat * expr)) (on wh : option expr).
+
+(* observed: the counts reported for p and c (or the error) and both tables right after *)
+Record mstep := mkMS { ms_stmt : mstmt; ms_counts : res (Z * Z); ms_p : list row; ms_c : list row }.
+Record mcase := mkM { mid : N; mstrict : bool; mp0 : list row; mc0 : list row; msteps : list mstep }.
+
+Definition mexec (ps cs : list row) (s : mstmt) : res ((list row * Z) * (list row * Z)) :=
+  match s with
+  | MDelete tp tc on wh => delete_join tp tc on wh ps cs
+  | MUpdate sets on wh => do r <- update_join sets on wh ps cs; Ok (r, (cs, 0))
+  end.
+
+Fixpoint m_first_bad (ps cs : list row) (steps : list mstep) (k : N) : N :=
+  match steps with
+  | [] => 0%N
+  | s :: steps' =>
+      match mexec ps cs (ms_stmt s), ms_counts s with
+      | Ok ((ps', np), (cs', nc)), Ok (np', nc') =>
+          if (np =? np') && (nc =? nc') && rows_same ps' (ms_p s) && rows_same cs' (ms_c s)
+          then m_first_bad ps' cs' steps' (k + 1)%N else k
+      | Err e, Err e' =>
+          if err_class_same e e' && rows_same ps (ms_p s) && rows_same cs (ms_c s) then m_first_bad ps cs steps' (k + 1)%N else k
+      | _, _ => k
+      end
+  end.
+
+(* on the observations alone: the row count of each table drops by exactly the reported number, the
+   remaining rows are old rows, and an error changes nothing *)
+Fixpoint m_obs_ok (ps cs : list row) (steps : list mstep) : bool :=
+  match steps with
+  | [] => true
+  | s :: steps' =>
+      (match ms_counts s, ms_stmt s with
+       | Err _, _ => rows_same ps (ms_p s) && rows_same cs (ms_c s)
+       | Ok (np, nc), MDelete _ _ _ _ =>
+           (Z.of_nat (length (ms_p s)) =? Z.of_nat (length ps) - np) && (Z.of_nat (length (ms_c s)) =? Z.of_nat (length cs) - nc)
+           && sub_multiset (ms_p s) ps && sub_multiset (ms_c s) cs
+       | Ok (np, nc), MUpdate _ _ _ => Nat.eqb (length (ms_p s)) (length ps) && rows_same cs (ms_c s)
+       end) && m_obs_ok (ms_p s) (ms_c s) steps'
+  end.
+
+(* kinds 6 / 7: multi-table history differs from the model / breaks the frame condition *)
+Definition check_multi (cs : list mcase) : list (N * N) :=
+  flat_map (fun c =>
+    (if (m_first_bad (mp0 c) (mc0 c) (msteps c) 1 =? 0)%N then [] else [(6%N, mid c)]) ++
+    (if m_obs_ok (mp0 c) (mc0 c) (msteps c) then [] else [(7%N, mid c)])) cs.
+
+Fixpoint m_trace (ps cs : list row) (steps : list mstep) : list (res ((list row * Z) * (list row * Z))) :=
+  match steps with
+  | [] => []
+  | s :: steps' =>
+      match mexec ps cs (ms_stmt s) with
+      | Ok ((ps', np), (cs', nc)) => Ok ((ps', np), (cs', nc)) :: m_trace ps' cs' steps'
+      | Err e => Err e :: m_trace ps cs steps'
+      end
+  end.
+Definition expected_multi (c : mcase) := (mid c, m_first_bad (mp0 c) (mc0 c) (msteps c) 1, m_trace (mp0 c) (mc0 c) (msteps c)).
